@@ -2,6 +2,7 @@ package definition
 
 import (
 	"encoding/json"
+	"slices"
 
 	"github.com/nyaruka/gocommon/i18n"
 	"github.com/nyaruka/gocommon/jsonx"
@@ -78,6 +79,7 @@ func (l localization) Languages() []i18n.Language {
 	for lang := range l {
 		languages = append(languages, lang)
 	}
+	slices.Sort(languages)
 	return languages
 }
 
